@@ -24,7 +24,7 @@ MOD = "vf.checks.c12"
 _MARK = itertools.count(1)
 PFX = {"k": 1e3, "m": 1e-3, "M": 1e6, "µ": 1e-6, "u": 1e-6, "da": 1e1, "c": 1e-2}
 OPS = ["add_foo_len", "add_foo_time", "add_qux", "add_kfoo", "mod_foo", "mod_foo_q", "mod_pc", "mod_qux", "rm_foo", "rm_qux", "rm_kfoo", "rm_pc", "def_baz",
-       "mod_kfoo", "add_foo_np", "mod_foo_swapdim"]
+       "mod_kfoo", "add_foo_np", "mod_foo_swapdim", "mod_foo_q_km"]
 PROBES = ["foo", "kfoo", "mfoo", "Mfoo", "µfoo", "dafoo", "qux", "kqux", "baz", "pc", "kpc", "Mpc", "foo**2/s", "kfoo*qux", "foo*kfoo", "pc/yr", "sqrt(foo)",
           "m", "kfoo**2", "qux/kfoo", "1/foo", "mpc", "parsec", "Kiloparsec", "megaparsec/year", "foo*parsec"]
 # written-out names the parser rewrites to symbols (the library's alias table, read as data)
@@ -81,13 +81,15 @@ class Model:
             X["qux"] = (3.0, T.MASS, 0.0, False)
         elif op == "add_kfoo":
             X["kfoo"] = (7.0, T.LENGTH, 0.0, False)
-        elif op in ("mod_foo", "mod_foo_q", "mod_pc", "mod_qux", "mod_kfoo"):
-            sym = {"mod_foo": "foo", "mod_foo_q": "foo", "mod_pc": "pc", "mod_qux": "qux", "mod_kfoo": "kfoo"}[op]
+        elif op in ("mod_foo", "mod_foo_q", "mod_pc", "mod_qux", "mod_kfoo", "mod_foo_q_km"):
+            sym = {"mod_foo": "foo", "mod_foo_q": "foo", "mod_pc": "pc", "mod_qux": "qux", "mod_kfoo": "kfoo", "mod_foo_q_km": "foo"}[op]
             e = self.entry(sym)
             if e is None:
                 return "SymbolNotFoundError"
             if op == "mod_foo_q":
                 X[sym] = (4.0, T.TIME, e[2], e[3])
+            elif op == "mod_foo_q_km":
+                X[sym] = (2000.0, T.LENGTH, e[2], e[3])
             else:
                 X[sym] = ({"mod_foo": 11.0, "mod_pc": 1.0, "mod_qux": 0.5, "mod_kfoo": 13.0}[op], e[1], e[2], e[3])
         elif op == "mod_foo_swapdim":
@@ -124,12 +126,14 @@ def lib_apply(reg, op):
     elif op == "mod_foo":
         reg.modify("foo", 11.0)
     elif op == "mod_foo_q":
-        reg.modify("foo", unyt_quantity(4.0, "s"))
+        reg.modify("foo", unyt_quantity(4.0, "s", registry=reg))
+    elif op == "mod_foo_q_km":
+        reg.modify("foo", unyt_quantity(2.0, "km", registry=reg))  # a quantity that lives in this registry (whatever its unit system)
     elif op == "mod_foo_swapdim":
         if "foo" not in reg.lut:
             reg.modify("foo", 1.0)  # raises SymbolNotFoundError
         cur = reg.lut["foo"]
-        reg.modify("foo", unyt_quantity(cur[0], "s" if cur[1] == D.length else "m"))
+        reg.modify("foo", unyt_quantity(cur[0], "s" if cur[1] == D.length else "m", registry=reg))
     elif op == "mod_pc":
         reg.modify("pc", 1.0)
     elif op == "mod_qux":
@@ -139,7 +143,7 @@ def lib_apply(reg, op):
     elif op.startswith("rm_"):
         reg.remove(op[3:])
     elif op == "def_baz":
-        define_unit("baz", unyt_quantity(3.0, "m"), registry=reg)
+        define_unit("baz", unyt_quantity(3.0, "m", registry=reg), registry=reg)
 
 
 def _eval_probe(model, probe):
@@ -199,7 +203,8 @@ def judge_history(hist, part, deep=True):
     from unyt.unit_registry import UnitRegistry
 
     out = []
-    reg = UnitRegistry()
+    # the registry's default unit system does not enter what a symbol means (the table is in SI): half of the histories run under cgs / galactic
+    reg = UnitRegistry(unit_system=("mks", "cgs", "mks", "galactic")[(len(hist) + len(hist[0])) % 4])
     # unyt memoises unit rules process-wide under a hash of the registry *contents*; two registry objects that ever had the
     # same contents therefore share cached results (that cross-registry effect is C13's subject).  A unique marker symbol gives
     # every history its own content hash, so that what is observed here depends on this registry's own history only.
@@ -232,6 +237,17 @@ def judge_history(hist, part, deep=True):
         # units captured earlier keep their value
         for probe, st0, uobj, facts in captured[-12:]:
             now = (float(uobj.base_value), R.dimvec_of(uobj.dimensions), float(uobj.base_offset))
+            if now == facts:
+                try:
+                    for how, qq in (("unyt_array(data, unit, registry=its own)", unyt_array([6.0], uobj, registry=reg)), ("unyt_quantity(data, unit, registry=its own)", unyt_quantity(6.0, uobj, registry=reg)),
+                                    ("data*unit", np.array([6.0]) * uobj)):
+                        got_ = (float(qq.units.base_value), R.dimvec_of(qq.units.dimensions), float(qq.units.base_offset))
+                        if got_ != facts:
+                            out.append((f"C12:captured-unit-reread-on-construction:{edit_kind}", {"history": hist[: step + 1], "probe": probe, "captured_at": st0, "how": how, "was": facts, "data_carries": got_}))
+                            return out
+                except Exception as e_:
+                    out.append((f"C12:captured-unit-unusable-on-construction:{edit_kind}:{type(e_).__name__}", {"history": hist[: step + 1], "probe": probe, "captured_at": st0, "error": str(e_)[:120]}))
+                    return out
             if now != facts:
                 out.append((f"C12:captured-unit-changed:{edit_kind}", {"history": hist[: step + 1], "probe": probe, "captured_at": st0, "was": facts, "now": now}))
                 return out
@@ -296,7 +312,8 @@ def judge_history(hist, part, deep=True):
                 si = "m" if fd == T.LENGTH else "s"
                 checks = {
                     "to(SI)": (lambda: float(q.to(si).v), 6.0 * fs),
-                    "in_base": (lambda: float(q.in_base().v), 6.0 * fs),
+                    "in_base": (lambda: float(q.in_base("mks").v), 6.0 * fs),
+                    "in_base(own system)": ((lambda: (lambda r: float(r.v * r.units.base_value))(q.in_base())), 6.0 * fs) if model.entry("pc") == default_entry("pc") else None,
                     "q*q": (lambda: float((q * q).v * (q * q).units.base_value), 36.0 * fs * fs),
                     "q/SI simplify": (lambda: float((q / unyt_quantity(1.0, si, registry=reg)).to("dimensionless").v), 6.0 * fs),
                     "q*s/SI": (lambda: (lambda r: float(r.v * r.units.base_value))(q * unyt_quantity(1.0, "s", registry=reg) / unyt_quantity(1.0, si, registry=reg)), 6.0 * fs),
